@@ -527,6 +527,10 @@ bool encode_array::shift(size_t len)
 		if ((max = _d.length()) <= len) {
 			return false;
 		}
+		/* need private copy of shared data */
+		if (!mpt_array_slice(&_d, 0, max)) {
+			return false;
+		}
 		array::content *c = const_cast<array::content *>(_d.data());
 		uint8_t *d = reinterpret_cast<uint8_t *>(_d.base());
 		size_t shift = max - len;
